@@ -2261,6 +2261,33 @@ func (tx *SQLTx) deleteIndexEntries(pkEncVals []byte, valuesByColID map[uint32]T
 
 	for _, index := range table.indexes {
 		if !index.IsPrimary() {
+			// the entry of the deleted row in a secondary index is marked as deleted (as the one of an updated row is):
+			// a scan of that index by the same transaction does not return the row any more
+			encodedValues := make([][]byte, 2+len(index.cols)+1)
+			encodedValues[0] = EncodeID(table.id)
+			encodedValues[1] = EncodeID(index.id)
+			encodedValues[len(encodedValues)-1] = pkEncVals
+
+			for i, col := range index.cols {
+				val, specified := valuesByColID[col.id]
+				if !specified {
+					val = &NullValue{t: col.colType}
+				}
+
+				encVal, _, _ := EncodeValueAsKey(val, col.colType, col.MaxLen())
+
+				encodedValues[i+2] = encVal
+			}
+
+			md := store.NewKVMetadata()
+
+			md.AsDeleted(true)
+
+			err := tx.set(MapKey(tx.sqlPrefix(), MappedPrefix, encodedValues...), md, encodedRowValue)
+			if err != nil {
+				return err
+			}
+
 			continue
 		}
 
